@@ -104,6 +104,9 @@ type PX struct {
 	loops     map[*ssa.Function][]*loopInfo
 	havocked  map[string]*loopInfo // frame id + header index -> loop summarised on some path
 	modCache  map[*ssa.Function]map[string]bool
+	// views: slices of slices / strings are terms view(root, lo, hi) with symbolic
+	// bounds, and len of a view is hi-lo (see pxviews.go); off by default.
+	views bool
 }
 
 func (w *World) newPX(h pxHooks) *PX {
@@ -278,6 +281,10 @@ func (p *PX) term(v ssa.Value, fr *pxFrame, st *pxState) *Term {
 		if b, ok := x.X.Type().Underlying().(*types.Basic); ok && b.Info()&types.IsString != 0 {
 			a, i := p.term(x.X, fr, st), p.term(x.Index, fr, st)
 			return &Term{K: TPure, Name: "strindex", Args: []*Term{a, i}, T: v.Type(), key: "idx(" + a.key + "," + i.key + ")"}
+		}
+	case *ssa.Slice:
+		if p.views {
+			return p.sliceView(x, fr, st)
 		}
 	case *ssa.Call:
 		if t, ok := st.vals[p.reg(fr, v)]; ok {
@@ -624,6 +631,9 @@ func (p *PX) enter(fr *pxFrame, from, to *ssa.BasicBlock, st *pxState, k pxCont,
 
 // lenTerm: len(a); the length of append(s, k elements) is len(s)+k.
 func (p *PX) lenTerm(a *Term, t types.Type) *Term {
+	if a.K == TPure && a.Name == "view" && len(a.Args) == 3 {
+		return subT(a.Args[2], a.Args[1], t)
+	}
 	if a.K == TPure && a.Name == "append" && len(a.Args) == 2 && a.Args[1].K == TConst {
 		inner := p.lenTerm(a.Args[0], t)
 		k := a.Args[1]
